@@ -133,8 +133,7 @@ theorem extend_keeps_leaf_class_witness_fixed :
       = some (some 1) := by decide
 
 /-- the variant in the working tree -/
-theorem current_extend_keeps_leaf_class (hk : PyGql.Generated.HeapCfg.currentCfg.extKeepAll = true)
-    (hc : PyGql.Generated.HeapCfg.currentCfg.extLeafCopied = true) : ExtendKeepsLeafClass PyGql.Generated.HeapCfg.currentCfg :=
-  extend_keeps_leaf_class _ hk hc
+theorem current_extend_keeps_leaf_class : ExtendKeepsLeafClass PyGql.Generated.HeapCfg.currentCfg :=
+  extend_keeps_leaf_class _ cur_extKeepAll cur_extLeafCopied
 
 end PyGql.Props.C14
